@@ -45,7 +45,7 @@ function genRequest (rng, files, plainOnly) {
     code = `function h_${folder.replace(/\W/g, '_')}(a, b) { return a + b.trim() }\n//# sourceMappingURL=index.js.map\n`
     const map = JSON.stringify({ version: 3, sources: [folder.replace(/\W/g, '_') + '.ts'], names: [], mappings: 'AAAA,SAAS,EAAE' })
     const files2 = {}
-    files2[`/srv/app/${folder}/index.js.map`] = rng.bool(0.85) ? { content: map } : { err: 'NotFound' }
+    files2[`/srv/app/${folder}/index.js.map`] = rng.bool(0.8) ? { content: map } : rng.pick([{ err: 'NotFound' }, { err: 'PermissionDenied' }, { err: 'IsADirectory' }, { err: 'Other' }, { err: 'Interrupted' }, { content: map, fail_after: 5 }])
     reader = { files: files2, parent: 'node' }
   } else if (kind === 'many-literals') {
     code = 'function lits(a) {\n' + Array.from({ length: rng.range(20, 60) }, (_, i) => `  const l${i} = ${rng.bool(0.3) ? "'shared literal value'" : `'literal number ${i} long enough'`}; a += l${i};`).join('\n') + '\n  return a\n}\n'
